@@ -42,6 +42,9 @@ func c01Alphabet(tier string) []seqSym {
 		sy("SET", "k2", "b", "XX", "POINT", "8", "8"),
 		sy("FSET", "k1", "a", "f", "2"),
 		sy("FSET", "k1", "a", "f", "7", "f", "2"),
+		sy("SET", "k1", "a", "FIELD", "p.q", "5", "FIELD", "f", "1", "POINT", "1", "2"),
+		sy("FSET", "k1", "a", "p.q", "6"),
+		sy("FSET", "k1", "a", "p.q", "0"),
 		sy("FSET", "k1", "b", "XX", "f", "1", "g", "0"),
 		sy("DEL", "k1", "a"),
 		sy("DEL", "k1", "b", "ERRON404"),
@@ -108,6 +111,7 @@ func c01Probes() []seqSym {
 		for _, id := range []string{"a", "b"} {
 			p = append(p, sy("GET", k, id), sy("GET", k, id, "WITHFIELDS"), sy("EXISTS", k, id), sy("TTL", k, id),
 				sy("FGET", k, id, "f"), sy("FGET", k, id, "g"), sy("FEXISTS", k, id, "f"), sy("FEXISTS", k, id, "j"),
+				sy("FGET", k, id, "p.q"), sy("FEXISTS", k, id, "p.q"), sy("FGET", k, id, "f.x"),
 				sy("JGET", k, id), sy("JGET", k, id, "x"), sy("JGET", k, id, "properties.n"))
 		}
 	}
